@@ -131,7 +131,10 @@ class Run:
             run.depth -= 1
 
         fn.__name__ = 'gh_%s_%d' % (typ, i)
-        return handler(typ, priority=hp, channel=chan)(fn) if chan else handler(typ, priority=hp)(fn)
+        kw = {} if hp == 0 else {'priority': hp}       # priority 0 is the default: declared the way applications do, without it
+        if chan:
+            kw['channel'] = chan
+        return handler(typ, **kw)(fn)
 
     def fire(self, typ, prio, by=None):
         e = Event.create(typ)
@@ -139,11 +142,12 @@ class Run:
         self.events[e.eid] = e
         self.meta[e.eid] = (typ, prio, e.eid)
         self.log.append(('fire', e.eid, typ, prio, self.passno, by))
+        kw = {} if prio == 0 else {'priority': prio}     # (priority 0 is the default of fire())
         if self.split.get(typ):
             chans = ('cx', 'cy') if self.mode == 1 else ('cy', 'cx')
-            self.m.fire(e, *chans, priority=prio)
+            self.m.fire(e, *chans, **kw)
         else:
-            self.m.fire(e, priority=prio)
+            self.m.fire(e, **kw)
         return e
 
     def fire_again(self, event, prio):
